@@ -71,6 +71,20 @@ struct H {
         switch (op) {
         case 0: {   // set
             Desc d = g.gen_desc(m, true);
+            if (!c.exhaustive && d.tail == Desc::NONE && !d.path.empty() && c.chance(1, 10)) {
+                // a list index beyond INT_MAX at the END of an otherwise valid path (which may have inserted cells on
+                // its way): no such list can exist, the call must fail -- and, like every refused set, change nothing
+                static const char *const big[5] = {"2147483648", "3000000000", "4294967295", "4294967296", "99999999999999999999"};
+                std::string ds = g.print(d) + "[" + big[c.draw(5)] + "]=" + g.gen_value();
+                c.note("set(%s)   [index beyond INT_MAX: must be refused, tree unchanged]", esc(ds).c_str());
+                errno = 0;
+                int rc = b_set(ds.c_str()); int err = errno;
+                PBT_CHECK(c, rc == -1 && (err == EINVAL || err == ENOMEM), "C13.invalid_accepted", "step %d: set(%s) with a list index beyond INT_MAX returned %d (errno %d: %s)", step, esc(ds).c_str(), rc, err, strerror(err));
+                c.label(d.has_insert() ? "set:index-beyond-INT_MAX-after-insertion" : "set:index-beyond-INT_MAX");
+                int nins = 0; for (auto &e : d.path) if (e.t == Elem::INS || e.t == Elem::APP) nins++;
+                if (nins >= 2) c.label("set:refused-after-two-insertions");
+                break;      // the model is unchanged; compare() after the op checks that the tree is too
+            }
             bool isnull = c.chance(1, 5);
             std::string val = isnull ? "" : g.gen_value();
             std::string ds = g.print(d) + (isnull ? "#" : "=" + val);
